@@ -126,7 +126,11 @@ func (g *Gen) EditIOSCrypto(d *GConf) string {
 				// Other content under a generated name: approve
 				// must switch the reference inside the entry.
 				a := d.acl(e.Filter)
-				n := &GACL{Name: strings.SplitN(e.Filter, "-DRC-", 2)[0] + "-DRC-0", Lines: append([]string{}, a.Lines...)}
+				nn := strings.SplitN(e.Filter, "-DRC-", 2)[0] + "-DRC-0"
+				if nn != e.Filter && d.acl(nn) != nil {
+					return "ios-crypto-seq-differs"
+				}
+				n := &GACL{Name: nn, Lines: append([]string{}, a.Lines...)}
 				g.LineEdit(d, n)
 				n.Lines[0] = g.ACE(d)
 				n.Lines = dedupLines(n.Lines, true)
@@ -144,8 +148,11 @@ func (g *Gen) EditIOSCrypto(d *GConf) string {
 				e.Dir = "in"
 			}
 		default:
-			e.Filter = fmt.Sprintf("crypto-filter-%s-%d-DRC-1", cm.Intf, e.Seq)
-			d.ACLs = append(d.ACLs, g.filterACL(d, e.Filter))
+			name := fmt.Sprintf("crypto-filter-%s-%d-DRC-1", cm.Intf, e.Seq)
+			if d.acl(name) == nil {
+				e.Filter = name
+				d.ACLs = append(d.ACLs, g.filterACL(d, e.Filter))
+			}
 		}
 		return "ios-crypto-seq-differs+sub"
 	case 3:
@@ -177,8 +184,10 @@ func (g *Gen) EditIOSCrypto(d *GConf) string {
 		}
 		e := &GIOSEntry{Seq: seq, Peer: fmt.Sprintf("172.17.0.%d", seq), Dir: "in"}
 		if g.Rng.Intn(2) == 0 {
-			e.Filter = fmt.Sprintf("crypto-filter-%s-old%d", cm.Intf, seq)
-			d.ACLs = append(d.ACLs, g.filterACL(d, e.Filter))
+			if name := fmt.Sprintf("crypto-filter-%s-old%d", cm.Intf, seq); d.acl(name) == nil {
+				e.Filter = name
+				d.ACLs = append(d.ACLs, g.filterACL(d, e.Filter))
+			}
 		}
 		cm.Entries = append(cm.Entries, e)
 		return "ios-crypto-entry-extra"
